@@ -863,10 +863,18 @@ pub fn check(ctx: &Ctx) {
         for aead in [1u8, 2, 3] {
             for chunk in 0..=16u8 {
                 let c = 1usize << (chunk + 6);
-                if quick && chunk > 10 {
+                // the large chunk sizes in the quick tier: one cipher / mode, one length just past
+                // a chunk (the other combinations are the thorough tier's)
+                if quick && chunk > 10 && !(sym == 7 && aead == 2) {
                     continue;
                 }
-                let ns: Vec<usize> = if chunk <= 10 { vec![0, 1, c - 1, c, c + 1, 2 * c, 3 * c - 1, 3 * c] } else { vec![0, 1, c - 1, c, c + 1] };
+                let ns: Vec<usize> = if chunk <= 10 {
+                    vec![0, 1, c - 1, c, c + 1, 2 * c, 3 * c - 1, 3 * c]
+                } else if quick {
+                    vec![c + 1]
+                } else {
+                    vec![0, 1, c - 1, c, c + 1]
+                };
                 for n in ns {
                     dc.push(SeipdCase { v2: true, sym, aead, chunk, n });
                 }
